@@ -74,7 +74,13 @@ def main():
     harness_release = None
     try:
         hb = lib.build_harness("debug")
-        if getattr(mod, "RELEASE_TOO", False) and tier == "thorough":
+        second_label = "release"
+        if getattr(mod, "SECOND_BUILD", None):
+            # a second build of the implementation on which every case and the oracle run as well (C02: opt-level 0,
+            # where no recursion is turned into a loop by the optimiser)
+            second_label = mod.SECOND_BUILD
+            harness_release = lib.build_harness(mod.SECOND_BUILD)
+        elif getattr(mod, "RELEASE_TOO", False) and tier == "thorough":
             harness_release = lib.build_harness("release")
     except BuildError as e:
         path = lib.write_replay(prop, {"kind": "build-failure", "what": e.what, "log": e.log[-3000:]})
@@ -184,7 +190,7 @@ def main():
             ro = impl_rel[i]
             rmsg = mod.oracle(c, ro, mo)
             if rmsg is not None:
-                msg = "release build: " + rmsg
+                msg = second_label + " build: " + rmsg
             elif getattr(mod, "RELEASE_SAME", True) and ro != io:
                 msg = "debug and release builds disagree"
         if msg is not None:
